@@ -5,7 +5,9 @@ set -e
 cd "$(dirname "$0")"
 export CARGO_NET_OFFLINE=true
 (cd harness && cargo build --offline 2>&1 | tail -3)
-for f in spec/*.tla; do
-  tla-sany "$f" > /dev/null 2>&1 || { echo "SANY failed on $f"; tla-sany "$f" | tail -20; exit 1; }
+cd spec
+for f in *.tla; do
+  tla-sany "$f" > /tmp/sany.$$ 2>&1 || { echo "SANY failed on $f"; tail -20 /tmp/sany.$$; rm -f /tmp/sany.$$; exit 1; }
 done
+rm -f /tmp/sany.$$
 echo "setup ok"
